@@ -604,6 +604,56 @@ def shrink(h):
     return out
 
 
+AUX_ENV = {"DTAIDISTANCE_TESTWITHOUTNUMPY": "1"}
+PURE_REPS = ("list", "tuple", "array")
+PURE_FNS = ("distance", "lb_keogh", "ub_euclidean", "ed_distance", "distance_fast", "ed_distance_fast")
+
+
+def aux_digest(history):
+    """The NumPy-free subset of a history (pure-Python containers, routines that do not require NumPy), executed in
+    the current process configuration.  Run once with NumPy importable and once with DTAIDISTANCE_TESTWITHOUTNUMPY=1
+    (the library's own switch); the per-op results must be identical (C20: 'nor on whether NumPy is importable')."""
+    from dtaidistance import dtw, ed
+    setup = history["setup"]
+    out = []
+
+    def mk(ref):
+        v = setup["series"][ref[0]]
+        return list(v) if ref[1] == "list" else (tuple(v) if ref[1] == "tuple" else array.array("d", v))
+
+    for opi, op in enumerate(history["ops"]):
+        try:
+            if op["op"] == "pair" and op["fn"] in PURE_FNS and op["a"][1] in PURE_REPS and op["b"][1] in PURE_REPS:
+                a, b = mk(op["a"]), mk(op["b"])
+                o = dict(setup["dicts"][op["opts"]]) if op["opts"] is not None and op["opts"] < len(setup["dicts"]) else {}
+                fn, uc = op["fn"], op["use_c"]
+                if fn.endswith("_fast") or uc:
+                    # the C entry points need buffers: array.array is the NumPy-free one
+                    a, b = array.array("d", a), array.array("d", b)
+                if fn == "distance":
+                    r = dtw.distance(a, b, use_c=uc, **o)
+                elif fn == "distance_fast":
+                    r = dtw.distance_fast(a, b, **o)
+                elif fn == "lb_keogh":
+                    r = dtw.lb_keogh(a, b, use_c=uc, **{k: v for k, v in o.items() if k in ("window", "max_dist", "max_step", "inner_dist")})
+                elif fn == "ub_euclidean":
+                    r = dtw.ub_euclidean(a, b)
+                elif fn == "ed_distance":
+                    r = ed.distance(a, b)
+                else:
+                    r = ed.distance_fast(a, b)
+                out.append([opi, core.fbits(r)])
+            elif op["op"] == "matrix" and op["cont"] < len(setup["conts"]) and not op.get("fast"):
+                c = setup["conts"][op["cont"]]
+                o = dict(setup["dicts"][op["opts"]]) if op["opts"] is not None and op["opts"] < len(setup["dicts"]) else {}
+                ser = [array.array("d", setup["series"][i]) for i in c["idxs"]]
+                r = dtw.distance_matrix(ser, compact=True, parallel=False, use_c=op["use_c"], **o)
+                out.append([opi, [core.fbits(x) for x in r]])
+        except Exception as exc:  # noqa
+            out.append([opi, "exc:" + type(exc).__name__])
+    return out
+
+
 def main(tier, seed):
     sessions.Runner("sim.props.c20").run(tier, seed)
 
